@@ -302,14 +302,34 @@ def write_gz(path, recs):
             g.write((json.dumps(r, separators=(",", ":"), ensure_ascii=False) + "\n").encode("utf-8"))
 
 
-def load_corpus():
-    """frozen statement list: {h, sql, src, [tables]} in a fixed order"""
+BIG_FILES = ("tlc-d1.ndjson.gz", "tlc-d2.ndjson.gz")
+
+
+def load_corpus(small_only=False):
+    """frozen statement list: {h, sql, src, [tables]} in a fixed order (small_only: without the two large
+    TLC families, whose statements the quick tier gets from the live TLC run and checks against hashes.txt.gz)"""
     out = []
     if not os.path.isdir(CORPUS):
         return out
     for fn in sorted(os.listdir(CORPUS)):
-        if fn.endswith(".ndjson.gz") and fn != "seeds.ndjson.gz":
+        if fn.endswith(".ndjson.gz") and fn != "seeds.ndjson.gz" and not (small_only and fn in BIG_FILES):
             out += read_gz(os.path.join(CORPUS, fn))
+    return out
+
+
+def write_hashes(recs):
+    with gzip.GzipFile(os.path.join(CORPUS, "hashes.txt.gz"), "wb", mtime=0) as g:
+        g.write(("\n".join(f"{r['h']} {r['src']}" for r in recs) + "\n").encode())
+
+
+def load_hashes():
+    """hash -> source of every frozen statement (cheap membership test)"""
+    out = {}
+    with gzip.open(os.path.join(CORPUS, "hashes.txt.gz"), "rt") as f:
+        for line in f:
+            h, _, src = line.strip().partition(" ")
+            if h:
+                out[h] = src
     return out
 
 
